@@ -144,6 +144,52 @@ Theorem C42_identity_rewrite : forall im t,
   transform_down_up im id_cb id_cb t = (full_log id_cb t, mkT t false Continue).
 Proof. exact identity_rewrite. Qed.
 
+(* ---- real Expr-style nodes: children in several sibling containers (Box / Option / Vec / tuples), model gtree.
+   The tuple-of-containers walk/map is the plain left-to-right one exactly when no non-empty container is
+   followed only by empty ones (groups_ok) ... *)
+Theorem C42_container_walk_flat : forall (f : tree -> M tnr) gs,
+  groups_ok gs = true -> apply_groups f gs = apply_until_stop f (concat gs).
+Proof. intros f gs. exact (apply_groups_flat f gs). Qed.
+Theorem C42_container_map_flat : forall (f : tree -> M (Tr tree)) gs,
+  groups_ok gs = true ->
+  let X := map_groups f gs in
+  let Y := map_until_stop_and_collect f (concat gs) in
+  fst X = fst Y /\ concat (data (snd X)) = data (snd Y) /\
+  changed (snd X) = changed (snd Y) /\ rec (snd X) = rec (snd Y).
+Proof. intros f gs. exact (map_groups_flat f gs). Qed.
+(* ... so on well-grouped trees every entry point is the flat one, for which the contracts above hold *)
+Theorem C42_expr_apply : forall f t, well_grouped t = true -> gapply f t = apply f (flatten t).
+Proof. exact gapply_well_grouped. Qed.
+Theorem C42_expr_visit : forall fd fu t, well_grouped t = true -> gvisit fd fu t = visit fd fu (flatten t).
+Proof. exact gvisit_well_grouped. Qed.
+Theorem C42_expr_rewrite : forall fd fu t,
+  well_grouped t = true ->
+  gres_rel (gtransform_down_up fd fu t) (transform_down_up IVec fd fu (flatten t)).
+Proof. exact gtdu_well_grouped. Qed.
+Theorem C42_expr_transform_down : forall f t,
+  well_grouped t = true -> gres_rel (gtransform_down f t) (transform_down IVec f (flatten t)).
+Proof. exact gtd_well_grouped. Qed.
+Theorem C42_expr_transform_up : forall f t,
+  well_grouped t = true -> gres_rel (gtransform_up f t) (transform_up IVec f (flatten t)).
+Proof. exact gtu_well_grouped. Qed.
+
+(* ---- REFUTED for trees that are not well grouped (finding C42-F1): CASE WHEN 95 THEN <410> END, f_up answers
+   Jump on the THEN branch; the contract bypasses f_up(CASE) and ends with Jump, the empty ELSE container resets
+   the Jump: f_up(CASE) is invoked, the walk ends with Continue, apply_children reports Continue. *)
+Theorem C42_trailing_empty_container_refuted :
+  exists (t : gtree) (fd fu : vcb) (rd ru : rcb),
+    well_grouped t = false /\
+    s_log (scan_tree (vlift fd) (vlift fu) (flatten t)) =
+      [(PDown, 500); (PDown, 95); (PUp, 95); (PDown, 410); (PUp, 410)] /\
+    tnr_of (s_mode (scan_tree (vlift fd) (vlift fu) (flatten t))) = Jump /\
+    gvisit fd fu t =
+      ([(PDown, 500); (PDown, 95); (PUp, 95); (PDown, 410); (PUp, 410); (PUp, 500)], Continue) /\
+    fst (gtransform_down_up rd ru t) =
+      [(PDown, 500); (PDown, 95); (PUp, 95); (PDown, 410); (PUp, 410); (PUp, 500)] /\
+    s_log (scan_tree rd ru (flatten t)) = [(PDown, 500); (PDown, 95); (PUp, 95); (PDown, 410); (PUp, 410)] /\
+    gapply_children (gvcall PDown fu) t = ([(PDown, 95); (PDown, 410)], Continue).
+Proof. exact trailing_empty_container_refuted. Qed.
+
 (* ---- non-vacuity: the 10-node tree of the crate's own tests (a=1 .. j=10), Arc<dyn> implementation,
    f_down relabels e (5 -> 105, reported) and says Jump; f_up says Jump on h (8): e's subtree is skipped
    but f_up(e) runs on the new label; after f_up(h) jumps, f_up of g, f, i, j is bypassed. *)
